@@ -1,7 +1,9 @@
-(* CheckProofsNoExn.v — under the guard [crash_free] (Guards.v) no Python exception escapes
-   the validator model: every unguarded lookup of the code is reached only with a key that
-   is present.  The guard excludes exactly the crash shapes D11a–D11d (each of which has a
-   _refuted witness in Properties/C16.v). *)
+(* CheckProofsNoExn.v — no Python exception escapes the validator model, for every AST of the
+   shape the grammar produces ([from_grammar], Guards.v: attribute paths start with a field
+   and put an index only after a field; struct literals are JSON objects).  The lookups that
+   remain unguarded in the code (check_if_input_parameter_matches: "At this point it is known
+   that the variable chain is valid, so dont check again") are reached only after a successful
+   check_attribute_access, which makes every key present. *)
 From PFDL Require Import Base Syntax.
 From PFDL.Check Require Import CheckModel CheckProofsBase CheckProofsC16 Typing Guards.
 
@@ -54,7 +56,6 @@ Proof. apply noexn_ok. Qed.
 Section NoExn.
   Variable E : env.
 
-  (* ---- check_if_variable_definition_is_valid, structs ------------------------- *)
   Lemma noexn_check_vardef : forall t c, noexn (check_vardef E t c).
   Proof. intros. unfold check_vardef. destruct (variable_type_exists E _); auto with noexn. Qed.
 
@@ -64,141 +65,42 @@ Section NoExn.
     unfold check_struct_def. apply noexn_forall_from_in. intros. apply noexn_check_vardef.
   Qed.
 
-  (* ---- attribute access ------------------------------------------------------- *)
-  Lemma noexn_caa_loop : forall c es pred,
-    access_safe_loop E pred es = true -> noexn (caa_loop E c pred es).
+  (* ---- attribute access, expressions, limits: total ------------------------------ *)
+  Lemma noexn_caa_loop : forall c es pred, noexn (caa_loop E c pred es).
   Proof.
-    intros c es. induction es as [|e rest IH]; intros pred Hs; cbn [caa_loop].
+    intros c es. induction es as [|e rest IH]; intro pred; cbn [caa_loop].
     - auto with noexn.
-    - cbn [access_safe_loop] in Hs. destruct e; try (apply IH; exact Hs).
+    - destruct e; try apply IH.
       destruct (assoc n (sd_attrs pred)) as [ty|]; [|auto with noexn].
       destruct rest as [|e2 rest2]; [auto with noexn|].
-      destruct e2; destruct ty as [p|p l]; try discriminate;
-        (destruct (struct_of_prim E p); [apply IH; exact Hs | first [discriminate | auto with noexn]]).
+      destruct ty as [p|p l]; destruct (is_index e2); auto with noexn;
+        (destruct (struct_of_prim E p); [apply IH | auto with noexn]).
   Qed.
 
-  Lemma noexn_check_attribute_access : forall T c v es,
-    access_safe E T v es = true -> noexn (check_attribute_access E T c v es).
+  Lemma noexn_check_attribute_access : forall T c v es, noexn (check_attribute_access E T c v es).
   Proof.
-    intros T c v es Hs. unfold access_safe in Hs. apply andb_true_iff in Hs. destruct Hs as [_ Hs].
-    unfold check_attribute_access.
-    destruct (assoc v (td_vars T)) as [[p|p l]|]; try discriminate; auto with noexn.
-    destruct (struct_of_prim E p); [apply noexn_caa_loop; exact Hs | auto with noexn].
+    intros. unfold check_attribute_access.
+    destruct (assoc v (td_vars T)) as [[p|p l]|]; auto with noexn.
+    destruct (struct_of_prim E p); [apply noexn_caa_loop | auto with noexn].
   Qed.
 
-  (* L1: a successful access check along field names only makes the type lookup succeed *)
-  Lemma caa_true_gtvl_ok : forall es sd c e1 errs,
-    caa_loop E c sd (e1 :: es) = Ok (true, errs) ->
-    forallb (fun e => negb (is_index e)) (e1 :: es) = true ->
-    exists t, gtvl_loop E sd e1 es = Ok t.
+  Lemma noexn_check_expression : forall T c e, noexn (check_expression E T c e).
   Proof.
-    induction es as [|e2 rest IH]; intros sd c e1 errs Hc Hf.
-    - cbn in Hf. destruct e1; try discriminate. cbn in Hc. cbn [gtvl_loop attr_of].
-      destruct (assoc n (sd_attrs sd)) as [ty|]; [eauto | discriminate].
-    - cbn [forallb] in Hf. apply andb_true_iff in Hf. destruct Hf as [H1 Hf].
-      destruct e1; try discriminate.
-      assert (H2 : is_index e2 = false).
-      { cbn [forallb] in Hf. apply andb_true_iff in Hf. destruct Hf as [H2 _].
-        destruct (is_index e2); [discriminate | reflexivity]. }
-      destruct e2; try discriminate.
-      cbn [caa_loop] in Hc. cbn [gtvl_loop attr_of].
-      destruct (assoc n (sd_attrs sd)) as [ty|]; [|discriminate].
-      destruct ty as [p|p l]; [|discriminate].
-      cbn [struct_of_type].
-      destruct (struct_of_prim E p) as [sd'|]; [|discriminate].
-      cbn [rbind]. eapply IH; [exact Hc | exact Hf].
+    intros T c e. induction e; cbn [check_expression]; auto with noexn.
+    - unfold check_single_path. apply noexn_andthen; [apply noexn_check_attribute_access|].
+      intros _ _. destruct (get_type_of_variable_list E T v p) as [[[| | |s]|p0 l]|]; auto with noexn.
+    - destruct (is_cmp o); [|destruct (is_arith o)].
+      + destruct (expression_is_number E T e1 && expression_is_number E T e2); [auto with noexn|].
+        destruct (expression_is_string E T e1 && expression_is_string E T e2); auto with noexn.
+      + destruct (expression_is_number E T e1 && expression_is_number E T e2); auto with noexn.
+      + apply noexn_andthen; [assumption | intros _ _; assumption].
   Qed.
 
-  Lemma noexn_check_single_path : forall T c v es,
-    cond_path_safe E T v es = true -> noexn (check_single_path E T c v es).
+  Lemma noexn_check_limit : forall T c lim, noexn (check_limit E T c lim).
   Proof.
-    intros T c v es Hs. unfold cond_path_safe in Hs. apply andb_true_iff in Hs. destruct Hs as [Ha Hf].
-    unfold check_single_path. apply noexn_andthen.
-    - apply noexn_check_attribute_access. exact Ha.
-    - intros e He.
-      assert (Hok : exists t, get_type_of_variable_list E T v es = Ok t).
-      { unfold access_safe in Ha. apply andb_true_iff in Ha. destruct Ha as [Hg _].
-        unfold check_attribute_access in He. unfold get_type_of_variable_list.
-        destruct (assoc v (td_vars T)) as [[p|p l]|]; try discriminate.
-        cbn [struct_of_type].
-        destruct (struct_of_prim E p) as [sd|]; [|discriminate]. cbn [rbind].
-        destruct es as [|e1 rest]; [discriminate|].
-        eapply caa_true_gtvl_ok; eauto. }
-      destruct Hok as [t Ht]. rewrite Ht.
-      destruct t as [[| | |s]|p l]; auto with noexn.
-  Qed.
-
-  (* L2: a plain chain makes the type lookup succeed *)
-  Lemma plain_chain_gtvl_ok : forall es cur last,
-    plain_chain E cur last es = true -> exists t, gtvl_loop E cur last es = Ok t.
-  Proof.
-    induction es as [|e rest IH]; intros cur last Hp; cbn [plain_chain gtvl_loop] in *.
-    - destruct (attr_of cur last); [eauto | discriminate].
-    - destruct (attr_of cur last) as [[p|p l]|]; try discriminate.
-      cbn [struct_of_type]. destruct (struct_of_prim E p) as [sd|]; [|discriminate].
-      cbn [rbind]. apply IH. exact Hp.
-  Qed.
-
-  Lemma plain_path_gtvl_ok : forall T v es,
-    plain_path E T v es = true -> exists t, get_type_of_variable_list E T v es = Ok t.
-  Proof.
-    intros T v es Hp. unfold plain_path in Hp. unfold get_type_of_variable_list.
-    destruct (assoc v (td_vars T)) as [[p|p l]|]; try discriminate.
-    cbn [struct_of_type]. destruct (struct_of_prim E p) as [sd|]; [|discriminate]. cbn [rbind].
-    destruct es as [|e rest].
-    - unfold has_key in Hp. destruct (assoc v (sd_attrs sd)); [eauto | discriminate].
-    - apply plain_chain_gtvl_ok. exact Hp.
-  Qed.
-
-  Lemma operand_safe_is_number : forall T e,
-    operand_safe E T e = true -> exists b, expression_is_number E T e = Ok b.
-  Proof.
-    intros T e. induction e; intro Hs; cbn [operand_safe expression_is_number] in *; eauto; try discriminate.
-    - destruct (plain_path_gtvl_ok _ _ _ Hs) as [t Ht]. rewrite Ht. cbn [rbind]. eauto.
-    - apply andb_true_iff in Hs. destruct Hs as [H1 H2].
-      destruct (IHe1 H1) as [b1 Hb1]. destruct (IHe2 H2) as [b2 Hb2].
-      rewrite Hb1, Hb2. unfold rand. cbn [rbind]. destruct b1; eauto.
-  Qed.
-
-  Lemma operand_safe_is_string : forall T e,
-    operand_safe E T e = true -> exists b, expression_is_string E T e = Ok b.
-  Proof.
-    intros T e Hs. destruct e; cbn [operand_safe expression_is_string] in *; eauto.
-    destruct (plain_path_gtvl_ok _ _ _ Hs) as [t Ht]. rewrite Ht. cbn [rbind]. eauto.
-  Qed.
-
-  Lemma rand_ok : forall a b x y, a = Ok x -> b = Ok y -> exists z, rand a b = Ok z.
-  Proof. intros a b x y -> ->. unfold rand. cbn [rbind]. destruct x; eauto. Qed.
-
-  Lemma noexn_check_expression : forall T c e,
-    expr_safe E T e = true -> noexn (check_expression E T c e).
-  Proof.
-    intros T c e. unfold expr_safe.
-    induction e; intro Hs; apply andb_true_iff in Hs; destruct Hs as [Ho Hp];
-      cbn [check_expression expr_operands_safe expr_paths_safe] in *; auto with noexn.
-    - apply noexn_check_single_path. exact Hp.
-    - apply IHe. rewrite Ho, Hp. reflexivity.
-    - apply IHe. rewrite Ho, Hp. reflexivity.
-    - destruct (is_cmp o) eqn:Hcmp; [|destruct (is_arith o) eqn:Har]; cbn [orb] in *.
-      + apply andb_true_iff in Ho. destruct Ho as [Hl Hr].
-        destruct (operand_safe_is_number _ _ Hl) as [bl Hbl].
-        destruct (operand_safe_is_number _ _ Hr) as [br Hbr].
-        destruct (rand_ok _ _ _ _ Hbl Hbr) as [z Hz]. rewrite Hz. cbn [lift_bool].
-        destruct z; [auto with noexn|].
-        destruct (operand_safe_is_string _ _ Hl) as [sl Hsl].
-        destruct (operand_safe_is_string _ _ Hr) as [sr Hsr].
-        destruct (rand_ok _ _ _ _ Hsl Hsr) as [z2 Hz2]. rewrite Hz2. cbn [lift_bool].
-        destruct z2; auto with noexn.
-      + apply andb_true_iff in Ho. destruct Ho as [Hl Hr].
-        destruct (operand_safe_is_number _ _ Hl) as [bl Hbl].
-        destruct (operand_safe_is_number _ _ Hr) as [br Hbr].
-        destruct (rand_ok _ _ _ _ Hbl Hbr) as [z Hz]. rewrite Hz. cbn [lift_bool].
-        destruct z; auto with noexn.
-      + apply andb_true_iff in Ho. destruct Ho as [Hol Hor].
-        apply andb_true_iff in Hp. destruct Hp as [Hpl Hpr].
-        apply noexn_andthen.
-        * apply IHe1. rewrite Hol, Hpl. reflexivity.
-        * intros _ _. apply IHe2. rewrite Hor, Hpr. reflexivity.
+    intros T c lim. unfold check_limit. destruct lim; [auto with noexn|].
+    apply noexn_andthen; [apply noexn_check_attribute_access|]. intros _ _.
+    destruct (expression_is_number E T (EPath v p)); auto with noexn.
   Qed.
 
   (* ---- struct literals --------------------------------------------------------- *)
@@ -219,62 +121,62 @@ Section NoExn.
     intros arr x Hn. unfold noexn in *. destruct arr as [[[|] es]| |k1|]; try discriminate; reflexivity.
   Qed.
 
+  (* every call of check_for_wrong_attribute_type_in_struct is behind the unknown-attribute test *)
   Definition Qv (v : pv) : Prop :=
-    forall jctx ictx def id, value_safe E def id v = true -> noexn (check_attr_type E jctx ictx def id v).
+    forall jctx ictx def id, has_key id (sd_attrs def) = true -> noexn (check_attr_type E jctx ictx def id v).
   Definition Pv (v : pv) : Prop :=
     Qv v /\ match v with
             | PVStruct fs => Forall (fun kv => Qv (snd kv)) fs
             | _ => True
             end.
 
+  Lemma noexn_fields : forall jctx sd' fs,
+    Forall (fun kv => Qv (snd kv)) fs ->
+    noexn ((fix go (l : list (name * pv)) : chk :=
+              match l with
+              | [] => ok_true
+              | (id', v') :: r =>
+                band (if has_key id' (sd_attrs sd') then check_attr_type E jctx jctx sd' id' v'
+                      else fail1 KUnknownAttrInLit jctx) (go r)
+              end) fs).
+  Proof.
+    intros jctx sd' fs H. induction fs as [|[id' v'] r IHr]; [auto with noexn|].
+    inversion H; subst. apply noexn_band; [|apply IHr; assumption].
+    destruct (has_key id' (sd_attrs sd')) eqn:Hk; [apply H2; exact Hk | auto with noexn].
+  Qed.
+
   Lemma noexn_check_attr_type_strong : forall v, Pv v.
   Proof.
     intro v. induction v using pv_ind'; unfold Pv; (split; [|try exact I]);
-      try (intros jctx ictx def id Hs; cbn [check_attr_type value_safe] in *;
+      try (intros jctx ictx def id Hk; cbn [check_attr_type]; unfold has_key in Hk;
            destruct (assoc id (sd_attrs def)) as [[p|p len]|]; try discriminate;
            try solve [destruct (struct_of_prim E p); auto with noexn;
                       destruct (check_type_of_value E _ None p); auto with noexn]).
-    (* PVStruct under a struct-typed attribute *)
     - destruct (struct_of_prim E p) as [sd'|];
         [|destruct (check_type_of_value E _ None p); auto with noexn].
-      clear - H Hs. induction fs as [|[id' v'] r IHr]; [auto with noexn|].
-      inversion H; subst. apply andb_true_iff in Hs. destruct Hs as [Hs1 Hs2].
-      apply noexn_band; [apply H2; exact Hs1 | apply IHr; assumption].
+      apply noexn_band; [apply noexn_check_missing|]. apply noexn_fields.
+      eapply Forall_impl; [|exact H]. intros a Ha. apply Ha.
     - clear - H. eapply Forall_impl; [|exact H]. intros a Ha. apply Ha.
-    (* PVArray under an array-typed attribute *)
     - apply noexn_arr_wrap.
       generalize (length vs) as n. intro n.
       induction vs as [|value r IHr].
       + destruct (array_length_correct n len); auto with noexn.
-      + inversion H; subst. apply andb_true_iff in Hs. destruct Hs as [Hs1 Hs2].
-        apply noexn_andthen.
+      + inversion H; subst. apply noexn_andthen.
         * destruct value; auto with noexn.
           destruct (struct_of_prim E p) as [sd'|]; [|auto with noexn].
-          apply noexn_band; [apply noexn_check_missing|].
-          destruct H2 as [_ H2]. clear - H2 Hs1.
-          induction fs as [|[id' v'] r2 IHr2]; [auto with noexn|].
-          inversion H2; subst. apply andb_true_iff in Hs1. destruct Hs1 as [Ha Hb].
-          apply noexn_band; [|apply IHr2; assumption].
-          destruct (has_key id' (sd_attrs sd')); [apply H1; exact Ha | auto with noexn].
+          apply noexn_band; [apply noexn_check_missing|]. apply noexn_fields. apply H2.
         * intros _ _. destruct (check_type_of_value E value (Some p) p); [|auto with noexn].
           apply IHr; assumption.
   Qed.
 
-  Lemma noexn_check_attr_type : forall v jctx ictx def id,
-    value_safe E def id v = true -> noexn (check_attr_type E jctx ictx def id v).
-  Proof. intro v. exact (proj1 (noexn_check_attr_type_strong v)). Qed.
-
-  Lemma noexn_check_literal : forall ictx jctx s j,
-    literal_safe E s j = true -> noexn (check_literal E ictx jctx s j).
+  Lemma noexn_check_literal : forall ictx jctx s fs, noexn (check_literal E ictx jctx s (JObj fs)).
   Proof.
-    intros ictx jctx s j Hs. unfold literal_safe in Hs. unfold check_literal.
-    destruct (parse_json j); try discriminate.
+    intros ictx jctx s fs. unfold check_literal. cbn [parse_json].
     destruct (find_struct E s) as [sd|]; [|auto with noexn].
     apply noexn_band; [apply noexn_check_missing|].
     apply noexn_forall_from_in. intros i kv Hin.
-    rewrite forallb_forall in Hs. specialize (Hs kv Hin).
-    destruct (has_key (fst kv) (sd_attrs sd)); [|auto with noexn].
-    apply noexn_check_attr_type. exact Hs.
+    destruct (has_key (fst kv) (sd_attrs sd)) eqn:Hk; [|auto with noexn].
+    apply (proj1 (noexn_check_attr_type_strong (snd kv))). exact Hk.
   Qed.
 
   (* ---- calls ---------------------------------------------------------------------- *)
@@ -301,9 +203,8 @@ Section NoExn.
     end.
   Proof. reflexivity. Qed.
 
-  (* L3 ("At this point it is known that the variable chain is valid, so dont check
-     again"): after a successful check_attribute_access on a path of the grammar's shape
-     the walk of check_if_input_parameter_matches finds every key *)
+  (* after a successful check_attribute_access on a path of the grammar's shape the walk of
+     check_if_input_parameter_matches finds every key *)
   Lemma caa_true_ipm_ok : forall n es sd c errs prev,
     length es <= n ->
     caa_loop E c sd es = Ok (true, errs) ->
@@ -326,36 +227,19 @@ Section NoExn.
         destruct (assoc n0 (sd_attrs sd)) as [ty|]; [|discriminate].
         assert (Hnd2 : no_double_index (e2 :: rest2) = true).
         { cbn [no_double_index] in Hnd. apply andb_true_iff in Hnd. apply Hnd. }
-        destruct e2.
-        * (* field after field *)
-          destruct ty as [p|p l]; [|discriminate].
+        destruct ty as [p|p l]; destruct (is_index e2) eqn:Hi2; try discriminate.
+        * (* plain attribute followed by a field *)
           destruct (struct_of_prim E p) as [sd'|]; [|discriminate].
-          apply (IH (PF n1 :: rest2) sd' c errs prev); [cbn in *; lia | exact Hc | reflexivity | exact Hnd2].
-        * destruct ty as [p|p l]; [discriminate|].
-          destruct (struct_of_prim E p) as [sd'|]; [|discriminate].
-          rewrite last_cons.
-          apply (IH rest2 sd' c errs (PIdxVar v)); [cbn in *; lia | exact Hc | | ].
-          -- destruct rest2 as [|e3 r3]; [reflexivity|].
-             cbn [no_double_index] in Hnd2. apply andb_true_iff in Hnd2. destruct Hnd2 as [Hx _].
-             cbn in Hx. destruct (is_index e3); [discriminate | reflexivity].
-          -- destruct rest2 as [|e3 r3]; [reflexivity|].
-             cbn [no_double_index] in Hnd2. apply andb_true_iff in Hnd2. apply Hnd2.
-        * destruct ty as [p|p l]; [discriminate|].
+          apply (IH (e2 :: rest2) sd' c errs prev); [cbn in *; lia | exact Hc | exact Hi2 | exact Hnd2].
+        * (* array attribute followed by an index: the index is skipped *)
           destruct (struct_of_prim E p) as [sd'|]; [|discriminate].
           rewrite last_cons.
-          apply (IH rest2 sd' c errs (PIdxLit k)); [cbn in *; lia | exact Hc | | ].
-          -- destruct rest2 as [|e3 r3]; [reflexivity|].
+          assert (Hc' : caa_loop E c sd' rest2 = Ok (true, errs)).
+          { destruct e2; try discriminate; exact Hc. }
+          apply (IH rest2 sd' c errs e2); [cbn in *; lia | exact Hc' | | ].
+          -- destruct rest2 as [|e3 r3]; [exact Hi2|].
              cbn [no_double_index] in Hnd2. apply andb_true_iff in Hnd2. destruct Hnd2 as [Hx _].
-             cbn in Hx. destruct (is_index e3); [discriminate | reflexivity].
-          -- destruct rest2 as [|e3 r3]; [reflexivity|].
-             cbn [no_double_index] in Hnd2. apply andb_true_iff in Hnd2. apply Hnd2.
-        * destruct ty as [p|p l]; [discriminate|].
-          destruct (struct_of_prim E p) as [sd'|]; [|discriminate].
-          rewrite last_cons.
-          apply (IH rest2 sd' c errs PIdxNone); [cbn in *; lia | exact Hc | | ].
-          -- destruct rest2 as [|e3 r3]; [reflexivity|].
-             cbn [no_double_index] in Hnd2. apply andb_true_iff in Hnd2. destruct Hnd2 as [Hx _].
-             cbn in Hx. destruct (is_index e3); [discriminate | reflexivity].
+             rewrite Hi2 in Hx. cbn in Hx. destruct (is_index e3); [discriminate | reflexivity].
           -- destruct rest2 as [|e3 r3]; [reflexivity|].
              cbn [no_double_index] in Hnd2. apply andb_true_iff in Hnd2. apply Hnd2.
   Qed.
@@ -372,7 +256,7 @@ Section NoExn.
     - destruct (assoc v (td_vars T)); [destruct (vtype_eqb v0 defined)|]; auto with noexn.
     - destruct Hp as [Hg Hc]. unfold check_attribute_access in Hc.
       destruct (assoc v (td_vars T)) as [[p|p l]|]; try discriminate.
-      cbn [struct_of_type]. destruct (struct_of_prim E p) as [sd|]; [|discriminate].
+      destruct (struct_of_prim E p) as [sd|]; [|discriminate].
       unfold grammar_path in Hg. destruct es as [|e rest]; [discriminate|]. destruct e; try discriminate.
       destruct (caa_true_ipm_ok (length (PF n :: rest)) (PF n :: rest) sd c errs (PF v)
                                 (le_n _) Hc eq_refl Hg) as (cur & Hw & Hl).
@@ -405,29 +289,29 @@ Section NoExn.
     has_key k d = true -> exists v, assoc k d = Some v.
   Proof. intros V k d H. unfold has_key in H. destruct (assoc k d); [eauto | discriminate]. Qed.
 
-  Definition params_safe (T : tdef) (ins : list param) : Prop :=
-    forallb (param_access_safe E T) ins = true /\ forallb (param_literal_safe E) ins = true.
+  Definition params_shaped (ins : list param) : Prop := forallb param_from_grammar ins = true.
 
   Lemma noexn_check_call_parameters : forall T ti pi ins outs,
-    params_safe T ins -> noexn (check_call_parameters E T ti pi ins outs).
+    params_shaped ins -> noexn (check_call_parameters E T ti pi ins outs).
   Proof.
-    intros T ti pi ins outs [Ha Hl]. unfold check_call_parameters. apply noexn_band.
+    intros T ti pi ins outs Hs. unfold check_call_parameters. apply noexn_band.
     - destruct ins as [|p0 r0]; [auto with noexn|]. unfold check_call_inputs.
       apply noexn_forall_from_in. intros j x Hin.
-      rewrite forallb_forall in Ha, Hl. specialize (Ha x Hin). specialize (Hl x Hin).
+      unfold params_shaped in Hs. rewrite forallb_forall in Hs. specialize (Hs x Hin).
       unfold check_input_param. destruct x.
       + destruct (has_key v (td_vars T)); auto with noexn.
-      + apply noexn_check_attribute_access. exact Ha.
-      + apply noexn_check_literal. exact Hl.
+      + apply noexn_check_attribute_access.
+      + destruct j0; try discriminate. apply noexn_check_literal.
     - destruct (call_outs outs) eqn:Ho; [auto with noexn|]. unfold check_call_outputs. rewrite Ho.
       apply noexn_forall_from_in. intros. apply noexn_check_vardef.
   Qed.
 
   Lemma noexn_check_task_call : forall T ti pi c,
-    params_safe T (c_ins c) -> noexn (check_task_call E T ti pi c).
+    params_shaped (c_ins c) -> noexn (check_task_call E T ti pi c).
   Proof.
     intros T ti pi c Hs. unfold check_task_call.
     destruct (has_key (c_name c) (e_tasks E)) eqn:Hk; [|auto with noexn].
+    destruct (task_reaches E (length (e_tasks E)) (c_name c) (td_name T)); [auto with noexn|].
     apply noexn_andthen; [apply noexn_check_call_parameters; exact Hs|].
     intros e He. unfold check_call_matches, find_tdef.
     destruct (has_key_assoc _ _ _ Hk) as [called Hcalled]. rewrite Hcalled.
@@ -438,86 +322,87 @@ Section NoExn.
       + apply noexn_forall2. intros p def Hin.
         destruct p as [v|v es|s j].
         * apply (noexn_check_input_matches T ti pi (PVar v) (snd def) CFile []). exact I.
-        * (* the path passed check_attribute_access inside check_call_parameters *)
-          unfold check_call_parameters in He. apply band_ok in He.
+        * unfold check_call_parameters in He. apply band_ok in He.
           destruct He as (x & e1 & y & e2 & H1 & _ & Hxy & _).
           symmetry in Hxy. apply andb_true_iff in Hxy. destruct Hxy as [Hx _]. subst x.
           destruct (c_ins c) as [|p0 r0] eqn:Hins; [destruct Hin|].
           unfold check_call_inputs in H1.
           destruct (forall_from_true_in _ _ _ _ _ _ H1 Hin) as (j & e' & Hj).
           cbn [check_input_param] in Hj.
-          destruct Hs as [Ha _]. rewrite forallb_forall in Ha. specialize (Ha _ Hin).
-          cbn [param_access_safe] in Ha. unfold access_safe in Ha. apply andb_true_iff in Ha.
+          unfold params_shaped in Hs. rewrite forallb_forall in Hs. specialize (Hs _ Hin).
+          cbn [param_from_grammar] in Hs.
           apply (noexn_check_input_matches T ti pi (PPath v es) (snd def) (CStmtIn ti pi) e').
-          split; [apply Ha | exact Hj].
+          split; [exact Hs | exact Hj].
         * apply (noexn_check_input_matches T ti pi (PLit s j) (snd def) CFile []). exact I.
       + apply noexn_forall2. intros o out_name _. unfold check_output_matches.
         destruct (assoc out_name (td_vars called)); [destruct (vtype_eqb _ _)|]; auto with noexn.
   Qed.
 
   (* ---- statements, tasks ---------------------------------------------------------- *)
-  Lemma forallb_Forall : forall A (f : A -> bool) l, forallb f l = true -> Forall (fun x => f x = true) l.
-  Proof. intros A f l H. apply Forall_forall. apply forallb_forall. exact H. Qed.
-
   Lemma noexn_check_stmt : forall T s pi,
-    stmt_all (expr_operands_safe E T) (fun _ => true) s = true ->
-    stmt_all (expr_paths_safe E T) (param_access_safe E T) s = true ->
-    stmt_all (fun _ => true) (param_literal_safe E) s = true ->
-    noexn (check_stmt E T pi s).
+    stmt_params_all param_from_grammar s = true -> noexn (check_stmt E T pi s).
   Proof.
-    intros T s. induction s using stmt_ind'; intros pi H1 H2 H3; cbn [check_stmt stmt_all] in *.
-    - apply noexn_check_call_parameters. split; assumption.
-    - apply noexn_check_task_call. split; assumption.
+    intros T s. induction s using stmt_ind'; intros pi Hs; cbn [check_stmt stmt_params_all] in *.
+    - apply noexn_check_call_parameters. exact Hs.
+    - apply noexn_check_task_call. exact Hs.
     - apply noexn_forall_from_in. intros j c Hin. apply noexn_check_task_call.
-      rewrite forallb_forall in H2, H3. split; [apply H2 | apply H3]; assumption.
-    - apply andb_true_iff in H1, H2, H3. destruct H1 as [H1 H1e], H2 as [H2 H2e], H3 as [H3 _].
-      apply noexn_band.
+      rewrite forallb_forall in Hs. apply Hs. exact Hin.
+    - apply noexn_band; [|apply noexn_check_expression].
+      apply noexn_forall_from. rewrite Forall_forall in H. apply Forall_forall. intros x Hin j.
+      rewrite forallb_forall in Hs. apply H; auto.
+    - destruct par; (apply noexn_band; [apply noexn_check_limit|]).
+      + destruct b as [|s0 [|s1 r]]; [auto with noexn | | destruct s0; auto with noexn].
+        destruct s0; auto with noexn.
+        apply noexn_check_task_call. cbn in Hs. rewrite andb_true_r in Hs. exact Hs.
       + apply noexn_forall_from. rewrite Forall_forall in H. apply Forall_forall. intros x Hin j.
-        rewrite forallb_forall in H1, H2, H3. apply H; auto.
-      + apply noexn_check_expression. unfold expr_safe. rewrite H1e, H2e. reflexivity.
-    - destruct par.
-      + destruct (is_single_call b); auto with noexn.
+        rewrite forallb_forall in Hs. apply H; auto.
+    - apply andb_true_iff in Hs. destruct Hs as [Hp Hf].
+      apply noexn_band; [|apply noexn_band; [|apply noexn_check_expression]].
       + apply noexn_forall_from. rewrite Forall_forall in H. apply Forall_forall. intros x Hin j.
-        rewrite forallb_forall in H1, H2, H3. apply H; auto.
-    - apply andb_true_iff in H1, H2, H3. destruct H1 as [H1 H1e], H2 as [H2 H2e], H3 as [H3 _].
-      apply andb_true_iff in H1, H2, H3. destruct H1 as [H1p H1f], H2 as [H2p H2f], H3 as [H3p H3f].
-      apply noexn_band; [|apply noexn_band].
-      + apply noexn_forall_from. rewrite Forall_forall in H. apply Forall_forall. intros x Hin j.
-        rewrite forallb_forall in H1p, H2p, H3p. apply H; auto.
+        rewrite forallb_forall in Hp. apply H; auto.
       + apply noexn_forall_from. rewrite Forall_forall in H0. apply Forall_forall. intros x Hin j.
-        rewrite forallb_forall in H1f, H2f, H3f. apply H0; auto.
-      + apply noexn_check_expression. unfold expr_safe. rewrite H1e, H2e. reflexivity.
+        rewrite forallb_forall in Hf. apply H0; auto.
   Qed.
 
   Lemma noexn_check_task : forall T,
-    task_all (expr_operands_safe E) (fun _ _ => true) T = true ->
-    task_all (expr_paths_safe E) (param_access_safe E) T = true ->
-    task_all (fun _ _ => true) (fun _ => param_literal_safe E) T = true ->
-    noexn (check_task E T).
+    forallb (stmt_params_all param_from_grammar) (td_body T) = true -> noexn (check_task E T).
   Proof.
-    intros T H1 H2 H3. unfold task_all in *. unfold check_task. apply noexn_band; [|apply noexn_band].
+    intros T Hs. unfold check_task. apply noexn_band; [|apply noexn_band].
     - unfold check_statements. apply noexn_forall_from_in. intros j s Hin.
-      rewrite forallb_forall in H1, H2, H3. apply noexn_check_stmt; auto.
+      rewrite forallb_forall in Hs. apply noexn_check_stmt; auto.
     - unfold check_task_inputs. apply noexn_forall_from_in. intros. apply noexn_check_vardef.
     - unfold check_task_outputs. apply noexn_forall_from_in. intros.
       destruct (has_key x (td_vars T)); auto with noexn.
   Qed.
 End NoExn.
 
-Theorem crash_free_verdict : forall p,
-  crash_free p = true -> exists es, validate p = Ok es.
+Lemma in_dedup_first : forall V (l : list (name * V)) seen kv, In kv (dedup_first seen l) -> In kv l.
 Proof.
-  intros p Hcf. unfold crash_free in Hcf.
-  apply andb_true_iff in Hcf. destruct Hcf as [Hcf H3].
-  apply andb_true_iff in Hcf. destruct Hcf as [H1 H2].
-  unfold g_operands, g_access, g_literal, prog_all in *.
-  set (E := visit_env p) in *.
+  intros V l. induction l as [|[k v] r IH]; intros seen kv H; [destruct H|]. cbn [dedup_first] in H.
+  destruct (mem k seen); [right; eapply IH; exact H|].
+  destruct H as [H|H]; [left; exact H | right; eapply IH; exact H].
+Qed.
+
+Lemma in_e_tasks_body : forall p kv, In kv (e_tasks (visit_env p)) ->
+  exists t, In t (p_tasks p) /\ td_body (snd kv) = t_body t.
+Proof.
+  intros p kv H. cbn [visit_env e_tasks] in H. apply in_dedup_first in H.
+  apply in_map_iff in H. destruct H as ([i t] & <- & Hin). exists t. split; [|reflexivity].
+  clear - Hin. revert Hin. generalize 0. induction (p_tasks p) as [|x r IH]; intros n Hin; [destruct Hin|].
+  destruct Hin as [Heq|Hin]; [injection Heq as _ <-; left; reflexivity | right; eapply IH; exact Hin].
+Qed.
+
+Theorem from_grammar_verdict : forall p,
+  from_grammar p = true -> exists es, validate p = Ok es.
+Proof.
+  intros p Hg. set (E := visit_env p).
   assert (Hn : noexn (validate_process E)).
   { unfold validate_process. apply noexn_band; [apply noexn_check_structs|].
     unfold check_tasks.
     assert (Hn : noexn (forall_from (fun (_ : nat) (kv : name * tdef) => check_task E (snd kv)) 0 (e_tasks E))).
-    { apply noexn_forall_from_in. intros j kv Hin.
-      rewrite forallb_forall in H1, H2, H3. apply noexn_check_task; auto. }
+    { apply noexn_forall_from_in. intros j kv Hin. apply noexn_check_task.
+      destruct (in_e_tasks_body p kv Hin) as (t & Ht & Hb). rewrite Hb.
+      unfold from_grammar in Hg. rewrite forallb_forall in Hg. apply Hg. exact Ht. }
     unfold noexn in *.
     destruct (forall_from _ 0 (e_tasks E)) as [[valid es]| |k1|]; try discriminate; try reflexivity.
     destruct (has_key production_task (e_tasks E)); reflexivity. }
@@ -527,8 +412,8 @@ Proof.
   eauto.
 Qed.
 
-Theorem crash_free_no_exception : forall p,
-  crash_free p = true -> forall k, validate p <> Exn k.
+Theorem from_grammar_no_exception : forall p,
+  from_grammar p = true -> forall k, validate p <> Exn k.
 Proof.
-  intros p Hcf k. destruct (crash_free_verdict p Hcf) as [es Hes]. rewrite Hes. discriminate.
+  intros p Hg k. destruct (from_grammar_verdict p Hg) as [es Hes]. rewrite Hes. discriminate.
 Qed.
